@@ -1,12 +1,13 @@
 (* Properties_C20.v — C20: the core synchronisation primitives never allocate.
    Only statements; every proof is `exact <lemma of AllocProofs>`.
-   Quantification: any program (op list of any length) over future create / get_promise / await by coroutine,
-   blocking thread, callback awaiter / resolve by value, exception, drop, ~promise / destroy; mutex try_lock, lock by
-   the three waiter kinds, unlock with hand-over; suspend point variables; generator steps; pause; any number of waiters;
-   frames on the heap (heap = true) or in a non-heap storage (heap = false).
-   step_clean heap x o  :=  o is the rejection line, or: the step touched no deque memory, allocated and freed nothing for
-   suspend points while its suspend point carried <= 3 handles, and allocated exactly the frames the op creates
-   (none when heap = false). *)
+   Quantification: any program (op list of any length) over future<int|void|int&|move-only> create / get_promise /
+   promise move / await by coroutine (started at once, by co_await, or through the ready queue), blocking thread,
+   callback awaiter / resolve by value, exception, drop, ~promise, move-assignment of an empty promise, also inside
+   coro_queue::create_suspend_point / destroy; mutex try_lock, lock by the three waiter kinds, unlock with hand-over
+   (suspend point discarded, co_awaited, kept); suspend point variables; generator steps with and without argument; pause;
+   any number of waiters; frames on the heap (heap = true) or in a non-heap storage (heap = false).
+   step_clean heap x o  :=  o is the rejection line, or: the op allocated exactly the frames it creates (none when
+   heap = false) and, while its suspend point carried <= 3 handles, nothing else was allocated or freed. *)
 From Cocls Require Import Base BaseProofs AllocDefs AllocProofs.
 Local Open Scope Z_scope.
 
@@ -17,9 +18,9 @@ Proof. exact zero_alloc_normal. Qed.
 Print Assumptions c20_zero_alloc.
 
 (* COROUTINE mode: the statement holds for every program while the ready-queue cursor stays inside the first deque
-   node (fewer than 64 enqueues on the thread since the queue was created) *)
+   node (the queue's finish position never reaches 64 since the queue was created) *)
 Theorem c20_zero_alloc_below_node_boundary : forall heap ops,
-  dq_tail (dq (snd (run_from true heap st0 ops))) <= 63 ->
+  dq_hw (dq (snd (run_from true heap st0 ops))) <= 63 ->
   Forall2 (step_clean heap) ops (fst (run_from true heap st0 ops)).
 Proof. exact zero_alloc_below_node_boundary. Qed.
 Print Assumptions c20_zero_alloc_below_node_boundary.
@@ -36,14 +37,26 @@ Theorem c20_zero_alloc_refuted :
 Proof. exact zero_alloc_refuted. Qed.
 Print Assumptions c20_zero_alloc_refuted.
 
-(* the decidable form used on the implementation's traces accepts every model trace in normal mode ... *)
-Theorem c20_oracle_sound_normal : forall heap ops, al_oracle heap ops (al_run false heap ops) = true.
+(* STRICT form, also beyond three handles: in every mode, state and program the suspend-point memory of an accepted
+   step is exactly the budget computed from handle counts alone (arrays for 6, 12, 24, ... handles from the fourth
+   handle on, freed when the suspend point is cleared or merged away): nothing else may be allocated *)
+Theorem c20_sp_cost_is_budget : forall coro heap st x, Inv coro st ->
+  let r := step coro heap st x in
+  o_st (snd r) = 0 -> sp_budget (sizes st) x (o_sps (snd r)) = Some (o_csp (snd r), sizes (fst r)).
+Proof. exact sp_cost_is_budget. Qed.
+Print Assumptions c20_sp_cost_is_budget.
+
+(* the decidable (strict) form used on the implementation's traces accepts every model trace in normal mode
+   (create_suspend_point with 64 or more waiting coroutines would touch a second deque node even there) ... *)
+Theorem c20_oracle_sound_normal : forall heap ops,
+  Forall (fun o => o_sps o <= 63) (fst (run_from false heap st0 (map decode ops))) ->
+  al_oracle heap ops (al_run false heap ops) = true.
 Proof. exact oracle_normal. Qed.
 Print Assumptions c20_oracle_sound_normal.
 
 (* ... and in coroutine mode below the node boundary *)
 Theorem c20_oracle_sound_below_node_boundary : forall heap ops,
-  dq_tail (dq (snd (run_from true heap st0 (map decode ops)))) <= 63 ->
+  dq_hw (dq (snd (run_from true heap st0 (map decode ops)))) <= 63 ->
   al_oracle heap ops (al_run true heap ops) = true.
 Proof. exact oracle_below_node_boundary. Qed.
 Print Assumptions c20_oracle_sound_below_node_boundary.
@@ -62,10 +75,11 @@ Print Assumptions c20_sp_threshold_4th.
 
 (* ... program level, any reachable state, both modes, any mix of waiters: resolving a future hands back exactly its
    waiting coroutines; no suspend point memory up to three, at least one allocation from the fourth *)
-Theorem c20_resolve_threshold : forall coro heap st f kind s v, Inv st ->
+Theorem c20_resolve_threshold : forall coro heap st f kind s v, Inv coro st ->
   let o := snd (step coro heap st (FResolve f kind 0 s v)) in
   o_st o = 0 ->
   o_sps o = zlen (coro_waiters (f_chain (getf st f))) /\
+  o_csp o = cadd (grow_cost 0 (o_sps o)) (clear_cost (o_sps o)) /\
   (o_sps o <= 3 -> o_csp o = c0) /\ (3 < o_sps o -> 1 <= c_a (o_csp o)).
 Proof. exact resolve_threshold. Qed.
 Print Assumptions c20_resolve_threshold.
@@ -77,6 +91,18 @@ Theorem c20_alloc_equals_frames : forall coro heap ops,
 Proof. exact alloc_equals_frames. Qed.
 Print Assumptions c20_alloc_equals_frames.
 
+Theorem c20_pooled_frames_cost_nothing : forall coro ops,
+  total_fa (fst (run_from coro false st0 ops)) = 0 /\ total_ff (fst (run_from coro false st0 ops)) = 0.
+Proof. exact pooled_frames_cost_nothing. Qed.
+Print Assumptions c20_pooled_frames_cost_nothing.
+
+(* live-frame balance: frames allocated - frames freed = coroutines created and not yet finished + live generators *)
+Theorem c20_live_frame_balance : forall coro ops,
+  total_fa (fst (run_from coro true st0 ops)) - total_ff (fst (run_from coro true st0 ops)) =
+  live (snd (run_from coro true st0 ops)).
+Proof. exact live_balance. Qed.
+Print Assumptions c20_live_frame_balance.
+
 (* normal mode, <= 3 handles per suspend point: the frames are all the allocations there are *)
 Theorem c20_only_frames_normal : forall heap ops,
   Forall (fun o => o_sps o <= 3) (fst (run_from false heap st0 ops)) ->
@@ -85,17 +111,27 @@ Proof. exact normal_allocs_are_frames. Qed.
 Print Assumptions c20_only_frames_normal.
 
 (* the invariant used above holds in every reachable state *)
-Theorem c20_invariant : forall coro heap ops, Inv (snd (run_from coro heap st0 ops)).
+Theorem c20_invariant : forall coro heap ops, Inv coro (snd (run_from coro heap st0 ops)).
 Proof. exact reachable_inv. Qed.
 Print Assumptions c20_invariant.
 
 (* non-vacuity: a normal-mode program with three kinds of waiters, a contended mutex and a generator reaches
-   non-trivial states, every op accepted, and meets the hypotheses of c20_only_frames_normal *)
+   non-trivial states, every op accepted, and meets the hypotheses of c20_only_frames_normal; a coroutine-mode program
+   with queued starts, create_suspend_point and seven waiting coroutines pays exactly the documented arrays *)
 Example c20_nonvacuous :
-  let ops := [FNew 0 0; FGetP 0; FAwaitCoro 0 7 0; FAwaitCoro 0 8 0; FAwaitCoro 0 9 0; FAwaitSync 0 1; FAwaitCb 0 3;
-              FResolve 0 0 0 0 42; FDestroy 0; MTry 1; MLockCoro 1 20 0; MLockSync 1 2; MUnlock 1 0 0; MUnlock 1 0 0;
-              MUnlock 1 0 0; GNew 0 2; GNext 0 0; GDestroy 0] in
+  let ops := [FNew 0 3; FGetP 0; PMove 0; FAwaitCoro 0 7 0; FAwaitCoro 0 8 0; FAwaitCoro 0 9 0; FAwaitSync 0 1; FAwaitCb 0 3;
+              FResolve 0 0 10 0 42; FDestroy 0; MTry 1; MLockCoro 1 20 0; MLockSync 1 2; MUnlock 1 0 0; MUnlock 1 0 0;
+              MUnlock 1 0 0; GNew 0 2 1; GNext 0 0 5; GDestroy 0] in
   let tr := fst (run_from false true st0 ops) in
-  all_accepted tr = true /\ sps_small tr = true /\ total_fa tr = 5 /\ total_other tr = 0 /\
-  o_ev (nth 7 tr rejected) = [(2003, 0, 42); (9, 0, 42); (8, 0, 42); (7, 0, 42); (1001, 0, 42)].
+  all_accepted tr = true /\ sps_small tr = true /\ total_fa tr = 5 /\ total_ff tr = 5 /\ total_other tr = 0 /\
+  o_ev (nth 8 tr rejected) = [(2003, 0, 42); (7, 0, 42); (8, 0, 42); (9, 0, 42); (1001, 0, 42)] /\
+  o_res (nth 17 tr rejected) = 5001.
+Proof. vm_compute. repeat split; reflexivity. Qed.
+
+Example c20_nonvacuous_coro :
+  let ops := [FNew 0 0; FGetP 0] ++ map (fun w => FAwaitCoro 0 w 2) [1; 2; 3; 4; 5; 6; 7] ++ [Pause; FResolve 0 0 12 1 9; SpFlush 1 1] in
+  let tr := fst (run_from true true st0 ops) in
+  all_accepted tr = true /\ o_sps (nth 10 tr rejected) = 7 /\
+  o_csp (nth 10 tr rejected) = mkCost 6 432 5 336 /\ o_csp (nth 11 tr rejected) = mkCost 0 0 1 96 /\
+  total_fa tr - total_ff tr = 0 /\ dq_hw (dq (snd (run_from true true st0 ops))) = 15.
 Proof. vm_compute. repeat split; reflexivity. Qed.
